@@ -380,26 +380,7 @@ func nonTrivial(c Case) bool {
 
 // ---------------------------------------------------------------- exclusions of open findings
 
-// longLossy: a long float whose shortest decimal text (what the printer writes) is not its
-// exact value, or whose precision the reader's digit-count rule would not reproduce anyway.
-func longLossy(n Node) bool {
-	if n.K != "lf" {
-		return false
-	}
-	f := n.long()
-	if f.Sign() == 0 {
-		return false
-	}
-	txt := f.Text('e', -1)
-	r, ok := new(big.Rat).SetString(txt)
-	if !ok {
-		return true
-	}
-	exact, _ := f.Rat(nil)
-	return r.Cmp(exact) != 0
-}
-
-// digitsToBits is the reader's rule for the precision of a long float read from text.
+// readerPrec is the reader's rule for the precision of a long float read from text.
 func readerPrec(mantissaChars int) uint { return uint(3.32 * float64(mantissaChars)) }
 
 // longUnreadable: the shortest decimal text has so few digits that the precision the
@@ -426,44 +407,11 @@ func longUnreadable(n Node) bool {
 func excluded(c Case) string {
 	tag := ""
 	c.Obj.walk(func(n Node) {
-		if tag != "" {
-			return
-		}
-		switch {
-		case n.K == "lf" && longUnreadable(n) && h.ExclOn("long-float-precision"):
+		if tag == "" && n.K == "lf" && longUnreadable(n) && h.ExclOn("long-float-precision") {
 			tag = "long-float-precision"
-		case n.K == "sym" && strings.HasPrefix(n.V, ":") && needsPipes(n.V[1:]) && h.ExclOn("keyword-needing-pipes"):
-			tag = "keyword-needing-pipes"
-		case n.K == "sym" && strings.ContainsAny(n.V, "|\\") && h.ExclOn("symbol-bar-backslash"):
-			tag = "symbol-bar-backslash"
-		case n.K == "sym" && numberLike(n.V) && h.ExclOn("symbol-number-like"):
-			tag = "symbol-number-like"
-		case n.K == "sym" && symFoldUnstable(n.V) && h.ExclOn("symbol-case-fold"):
-			tag = "symbol-case-fold"
-		case n.K == "chr" && charUnreadable(n) && h.ExclOn("char-syntax"):
-			tag = "char-syntax"
-		case n.K == "ratio" && c.Cfg.Radix && h.ExclOn("ratio-radix"):
-			tag = "ratio-radix"
 		}
 	})
 	return tag
-}
-
-// symFoldUnstable: a name for which some case conversion leaves the simple-folding class
-// slip's symbol equality uses (e.g. U+0130).
-func symFoldUnstable(name string) bool {
-	for _, conv := range []string{strings.ToLower(name), strings.ToUpper(name)} {
-		if !strings.EqualFold(conv, name) {
-			return true
-		}
-	}
-	return false
-}
-
-// charUnreadable: characters whose #\x form the reader's character table rejects.
-func charUnreadable(n Node) bool {
-	r, _ := utf8.DecodeRuneInString(n.V)
-	return r < 0x80 && strings.ContainsRune("!\"$%&'();?[\\]`{}", r)
 }
 
 // ---------------------------------------------------------------- the round trip
@@ -1018,6 +966,11 @@ func TestC03(t *testing.T) {
 	h.Assume("math/big, strconv and unicode/utf8 are correct")
 	h.Assume("objects are constructed through slip's exported Go types and constructors (Fixnum, *Bignum, *Ratio, SingleFloat, DoubleFloat, *LongFloat, String, Character, Symbol, List, Tail, NewVector as (vector ...) does, NewArray)")
 
+	if !h.Thorough() {
+		// the quick tier samples the scalars above U+3000: different names, so that only the
+		// complete enumerations of the thorough tier are reported as exhaustive sub-spaces
+		chars.Name, strs.Name = "character-sample", "scalar-in-string-sample"
+	}
 	// witnesses of all subs first, so that exclusion tags are set before any search
 	for _, p := range []h.Prop[Case]{grid, chars, strs, margins} {
 		h.RunProp(t, p, 0)
@@ -1083,7 +1036,7 @@ func TestC03(t *testing.T) {
 		}
 	})
 	if !h.Thorough() {
-		h.Note("quick tier: every-character and every-scalar-in-string enumerate all scalars below U+3000 and every 61st above; the thorough tier enumerates all of them")
+		h.Note("quick tier: character-sample and scalar-in-string-sample enumerate all scalars below U+3000 and every 61st above; the thorough tier enumerates all of them (every-character, every-scalar-in-string)")
 	}
 
 	h.Enumerate(t, grid, func(yield func(Case) bool) {
